@@ -44,7 +44,9 @@ type Op struct {
 	// net: fault applied to the Attempt-th Interest (0-based) for segment Seg (-1 = metadata) of the next consume
 	Seg     int    `json:"seg,omitempty"`
 	Attempt int    `json:"attempt,omitempty"`
-	Act     string `json:"act,omitempty"` // drop | delay | dup | dropdata | delaydata | dupdata; restart: graceful | crash
+	Act     string `json:"act,omitempty"` // drop | delay | dup | dropdata | delaydata | dupdata | blackout (every Interest for a segment >= 1 of the object is lost, all attempts); restart: graceful | crash
+	// consume: the fetch of the second object starts StaggerMs after the first (0 = together)
+	StaggerMs int `json:"stagger_ms,omitempty"`
 	DelayMs int    `json:"delay_ms,omitempty"`
 	// restart: the producer process ends (graceful: stores closed; crash: whatever the store file holds at that
 	// instant is what survives) and a new producer starts on the durable state. DelayMs == 0: now; > 0: that long
@@ -210,6 +212,21 @@ func (Engine) Generate(prop string, r *kit.Rand, tier string) *kit.Scenario[Conf
 			sc.Ops = append(sc.Ops, Op{Op: "net", Obj: b, Seg: sb, Attempt: at, Act: "drop"})
 		}
 	}
+	// one object becomes unreachable after its metadata (every segment Interest lost) while the other is asked for a
+	// little later, when the first one's Interests fill the fetch window
+	stagger := 0
+	if second && r.Chance(0.15) {
+		if r.Chance(0.7) {
+			// ... and is large enough to fill the whole window (10 Interests) by itself
+			k := r.Range(11, 24)
+			sc.Ops = append(sc.Ops, Op{Op: "publish", Obj: 0, Version: 9000 + uint64(r.Intn(9)), Size: k*8000 + kit.Pick(r, []int{-1, 0, 1})})
+			if k > maxSegs {
+				maxSegs = k + 1
+			}
+		}
+		sc.Ops = append(sc.Ops, Op{Op: "net", Obj: 0, Seg: 0, Act: "blackout"})
+		stagger = kit.Pick(r, []int{1, 50, 1500, 5000})
+	}
 	// producer restart: before the fetch (durable state must serve it), or while it is running
 	if r.Chance(0.25) {
 		o := Op{Op: "restart", Act: kit.Pick(r, []string{"graceful", "crash"})}
@@ -218,7 +235,7 @@ func (Engine) Generate(prop string, r *kit.Rand, tier string) *kit.Scenario[Conf
 		}
 		sc.Ops = append(sc.Ops, o)
 	}
-	sc.Ops = append(sc.Ops, Op{Op: "consume"})
+	sc.Ops = append(sc.Ops, Op{Op: "consume", StaggerMs: stagger})
 	if r.Chance(0.1) {
 		// a second round: publish a newer version (or restart) after the first fetch, fetch again
 		if r.Chance(0.6) {
@@ -543,6 +560,7 @@ func (e Engine) run(ctx *kit.Ctx, sc *kit.Scenario[Config, Op], res *kit.Result,
 		op    *Op
 	}
 	faults := map[string]*fault{} // "obj|seg|attempt|interest/data"
+	blackout := [2]bool{}
 	dropsPerSeg := map[[2]int]int{}
 
 	for i := range sc.Ops {
@@ -617,6 +635,10 @@ func (e Engine) run(ctx *kit.Ctx, sc *kit.Scenario[Config, Op], res *kit.Result,
 			if act == "drop" || (act == "delay" && o.DelayMs >= limit) {
 				dropsPerSeg[[2]int{ob, o.Seg}]++
 			}
+			if act == "blackout" {
+				blackout[ob] = true
+				ctx.Fault("object-blackout")
+			}
 		case "consume":
 			type fetch struct {
 				obj         int
@@ -658,8 +680,7 @@ func (e Engine) run(ctx *kit.Ctx, sc *kit.Scenario[Config, Op], res *kit.Result,
 			if len(fetches) == 2 {
 				ctx.Probe("two-concurrent-fetches")
 			}
-			for _, f := range fetches {
-				f := f
+			startFetch := func(f *fetch) {
 				consumer.Consume(mkName(objNames[f.obj]), func(st *object.ConsumeState) bool {
 					f.progress++
 					f.got = append(f.got, st.Content()...)
@@ -669,6 +690,17 @@ func (e Engine) run(ctx *kit.Ctx, sc *kit.Scenario[Config, Op], res *kit.Result,
 					}
 					return true
 				})
+			}
+			var later []*fetch
+			for _, f := range fetches {
+				if blackout[f.obj] {
+					f.lossBeyond = true
+				}
+				if f.obj == 1 && o.StaggerMs > 0 && len(fetches) == 2 {
+					later = append(later, f)
+					continue
+				}
+				startFetch(f)
 			}
 			allDone := func() bool {
 				for _, f := range fetches {
@@ -734,6 +766,14 @@ func (e Engine) run(ctx *kit.Ctx, sc *kit.Scenario[Config, Op], res *kit.Result,
 				if allDone() || now() >= deadline {
 					break
 				}
+				if len(later) > 0 && now()-consumeStart >= time.Duration(o.StaggerMs)*time.Millisecond {
+					for _, f := range later {
+						startFetch(f)
+					}
+					later = nil
+					ctx.Probe("second-fetch-started-later")
+					synctest.Wait()
+				}
 				for len(pendingRestart) > 0 && now()-consumeStart >= time.Duration(pendingRestart[0].DelayMs)*time.Millisecond {
 					act := pendingRestart[0].Act
 					pendingRestart = pendingRestart[1:]
@@ -750,6 +790,10 @@ func (e Engine) run(ctx *kit.Ctx, sc *kit.Scenario[Config, Op], res *kit.Result,
 						ctx.Probe("retransmission")
 					}
 					fl := faults[fmt.Sprintf("%d|%d|%d|interest", ob, seg, a)]
+					if blackout[ob] && seg >= 1 { // segment 0 (which tells the consumer how many there are) still gets through
+						ctx.Fault("interest-drop")
+						continue
+					}
 					at := now()
 					if fl != nil {
 						ctx.Fault("interest-" + fl.act)
@@ -848,6 +892,11 @@ func (e Engine) run(ctx *kit.Ctx, sc *kit.Scenario[Config, Op], res *kit.Result,
 						next = d
 					}
 				}
+				if len(later) > 0 {
+					if d := consumeStart + time.Duration(o.StaggerMs)*time.Millisecond - now(); d < next {
+						next = d
+					}
+				}
 				if next < time.Millisecond {
 					next = time.Millisecond
 				}
@@ -919,7 +968,7 @@ func (e Engine) run(ctx *kit.Ctx, sc *kit.Scenario[Config, Op], res *kit.Result,
 	res.SimNanos = int64(now())
 	d := kit.NewDigest().S(sc.Config.Store).I(sc.Config.SpareCap)
 	for _, o := range sc.Ops {
-		d.S(o.Op).I(o.Obj).U(o.Version).I(o.Size).I(o.Seg).I(o.Attempt).S(o.Act).I(o.DelayMs).S(o.SOp).S(o.SName).S(o.Mut).I(o.At).U(o.Val)
+		d.S(o.Op).I(o.Obj).U(o.Version).I(o.Size).I(o.Seg).I(o.Attempt).S(o.Act).I(o.DelayMs).S(o.SOp).S(o.SName).S(o.Mut).I(o.At).U(o.Val).I(o.StaggerMs)
 	}
 	res.Digest = d.Sum()
 	ctx.State(res.Digest)
